@@ -58,6 +58,11 @@ section GeneratedDlog
 variable {H : Type} [CommGroup H] [DecidableEq H]
 open SqiGen.DlogRec
 
+/-- the recursion generated from the current `fp2_dlog_2e_rec` is the modelled one (proved in `SqiProofs/DlogGen.lean`; restated under the
+same name so that a change of the C recursion is reported as the failed obligation it breaks) -/
+theorem dlogRecGen_eq {M : Type} [DecidableEq M] (mul : M → M → M) (one : M) (len : Nat) (top : M × M) (below : List (M × M)) :
+    dlogRecGen mul one len top below = dlogRec mul one len top below := SqiProofs.DlogGen.dlogRecGen_eq mul one len top below
+
 theorem generated_dlog_eq_model (f g : H) (e : ℕ) :
     dlog2eGen (· * ·) 1 (·⁻¹) f g e = dlog2e (· * ·) 1 (·⁻¹) f g e := SqiProofs.DlogGen.dlog2eGen_eq _ _ _ f g e
 
